@@ -20,8 +20,14 @@ kinds: open_enoent open_eacces open_emfile open_enospc | write_enospc write_eio 
 
 from __future__ import annotations
 
+import builtins
 import errno
 import io
+import os
+import stat as _stat
+
+SIM_PREFIX = "/sim/"
+_FD_BASE = 1_000_000
 
 
 class SimCrash(BaseException):
@@ -44,6 +50,9 @@ class SimFS:
         self.touched = set()     # paths written/truncated in the current step
         self.opened = []         # (path, mode) opened in the current step
         self.handles = []
+        self.fds = {}            # fake fd -> {"path", "flags"}  (os.open on a simulated path)
+        self._next_fd = _FD_BASE
+        self.os_calls = {}       # name -> count (os-level calls that reached the simulated disk)
 
     # -- step protocol ----------------------------------------------------------------------------
     def begin_step(self, plan=None):
@@ -74,14 +83,103 @@ class SimFS:
         return None
 
     # -- the seam ---------------------------------------------------------------------------------
-    def open(self, file, mode="r", buffering=-1, encoding=None, errors=None, newline=None, closefd=True, opener=None):
-        path = str(file)
+    def _count(self, name):
+        self.os_calls[name] = self.os_calls.get(name, 0) + 1
+
+    def os_open(self, path, flags, mode=0o777):
+        """os.open on a simulated path: POSIX flag semantics, returns a fake descriptor."""
+        path = os.fspath(path)
+        self._count("os.open")
         f = self._fault("open", tuple(_OPEN_ERRNO))
-        self.opened.append((path, mode))
+        self.opened.append((path, f"flags={flags}"))
         if f is not None:
             raise OSError(_OPEN_ERRNO[f["kind"]], "sim: " + f["kind"], path)
+        exists = path in self.files
+        if flags & os.O_CREAT:
+            if exists and flags & os.O_EXCL:
+                raise FileExistsError(errno.EEXIST, "sim: file exists", path)
+            if not exists:
+                self.files[path] = bytearray()
+                self.touched.add(path)
+        elif not exists:
+            raise FileNotFoundError(errno.ENOENT, "sim: no such file or directory", path)
+        if flags & os.O_TRUNC and (flags & (os.O_WRONLY | os.O_RDWR)):
+            self.files[path] = bytearray()
+            self.touched.add(path)
+        fd = self._next_fd
+        self._next_fd += 1
+        self.fds[fd] = {"path": path, "flags": flags}
+        return fd
+
+    def os_close(self, fd):
+        self.fds.pop(fd, None)
+
+    def rename(self, src, dst):
+        src, dst = os.fspath(src), os.fspath(dst)
+        self._count("os.replace")
+        if src not in self.files:
+            raise FileNotFoundError(errno.ENOENT, "sim: no such file or directory", src)
+        if self.dead:
+            return
+        self.files[dst] = self.files.pop(src)
+        self.touched.add(dst)
+        self.touched.add(src)
+
+    def remove(self, path):
+        path = os.fspath(path)
+        self._count("os.remove")
+        if path not in self.files:
+            raise FileNotFoundError(errno.ENOENT, "sim: no such file or directory", path)
+        if self.dead:
+            return
+        del self.files[path]
+        self.touched.add(path)
+
+    def stat(self, path):
+        path = os.fspath(path)
+        if path.rstrip("/") + "/" == SIM_PREFIX or path + "/" == SIM_PREFIX:
+            return os.stat_result((_stat.S_IFDIR | 0o755, 0, 0, 1, 0, 0, 0, 0, 0, 0))
+        if path not in self.files:
+            raise FileNotFoundError(errno.ENOENT, "sim: no such file or directory", path)
+        return os.stat_result((_stat.S_IFREG | 0o644, 0, 0, 1, 0, 0, len(self.files[path]), 0, 0, 0))
+
+    @staticmethod
+    def _flags_of_mode(mode):
+        m = mode.replace("b", "").replace("t", "")
+        plus = "+" in m
+        base = {"r": 0, "w": os.O_CREAT | os.O_TRUNC, "a": os.O_CREAT | os.O_APPEND, "x": os.O_CREAT | os.O_EXCL}[m[0]]
+        if plus:
+            acc = os.O_RDWR
+        elif m[0] == "r":
+            acc = os.O_RDONLY
+        else:
+            acc = os.O_WRONLY
+        return base | acc | getattr(os, "O_CLOEXEC", 0)
+
+    def open(self, file, mode="r", buffering=-1, encoding=None, errors=None, newline=None, closefd=True, opener=None):
         binary = "b" in mode
-        raw = SimRaw(self, path, mode)
+        if isinstance(file, int):
+            # an already opened (fake) descriptor
+            ent = self.fds.get(file)
+            if ent is None:
+                raise OSError(errno.EBADF, "sim: bad file descriptor")
+            raw = SimRaw(self, ent["path"], mode, fd=file, flags=ent["flags"])
+            path = ent["path"]
+        elif opener is not None:
+            path = os.fspath(file)
+            fd = opener(path, self._flags_of_mode(mode))
+            ent = self.fds.get(fd)
+            if ent is None:
+                raise OSError(errno.EBADF, "sim: opener returned a descriptor that is not on the simulated disk")
+            self._count("open(opener=)")
+            raw = SimRaw(self, ent["path"], mode, fd=fd, flags=ent["flags"])
+        else:
+            path = os.fspath(file)
+            f = self._fault("open", tuple(_OPEN_ERRNO))
+            self.opened.append((path, mode))
+            if f is not None:
+                raise OSError(_OPEN_ERRNO[f["kind"]], "sim: " + f["kind"], path)
+            raw = SimRaw(self, path, mode)
         self.handles.append(raw)
         bufsize = int(self.plan.get("buffer") or 8192)
         if buffering == 0 and binary:
@@ -105,16 +203,28 @@ class SimFS:
 
 
 class SimRaw(io.RawIOBase):
-    def __init__(self, fs: SimFS, path: str, mode: str):
+    def __init__(self, fs: SimFS, path: str, mode: str, fd=None, flags=None):
         super().__init__()
         self.fs = fs
         self.path = path
         self.mode = mode
         self.pos = 0
         self.dead = False
+        self.fd = fd
+        self.name = path
         m = mode.replace("b", "").replace("t", "")
         self._readable = m.startswith("r") or "+" in m
         self._writable = m[0] in "wax" or "+" in m
+        self._append = m[0] == "a"
+        if fd is not None:
+            # the descriptor was opened by os.open: creation / truncation / exclusivity happened there, by ITS flags
+            acc = flags & (os.O_WRONLY | os.O_RDWR)
+            self._readable = self._readable and acc in (0, os.O_RDWR)
+            self._writable = self._writable and acc in (os.O_WRONLY, os.O_RDWR)
+            self._append = bool(flags & os.O_APPEND)
+            if self._append:
+                self.pos = len(fs.files.get(path, b""))
+            return
         if m[0] == "w":
             fs.files[path] = bytearray()
             fs.touched.add(path)
@@ -129,7 +239,6 @@ class SimRaw(io.RawIOBase):
         else:
             if path not in fs.files:
                 raise FileNotFoundError(errno.ENOENT, "sim: no such file or directory", path)
-        self.name = path
 
     def readable(self):
         return self._readable
@@ -159,7 +268,7 @@ class SimRaw(io.RawIOBase):
             if want > lim:
                 fs.fired.append("short_read") if "short_read" not in fs.fired else None
             want = min(want, int(lim))
-        data = fs.files[self.path][self.pos:self.pos + want]
+        data = fs.files.get(self.path, b"")[self.pos:self.pos + want]
         n = len(data)
         b[:n] = data
         self.pos += n
@@ -194,8 +303,8 @@ class SimRaw(io.RawIOBase):
         if not data:
             return
         fs = self.fs
-        buf = fs.files[self.path]
-        if "a" in self.mode:
+        buf = fs.files.setdefault(self.path, bytearray())
+        if self._append:
             self.pos = len(buf)
         if self.pos > len(buf):
             buf.extend(b"\x00" * (self.pos - len(buf)))
@@ -206,7 +315,7 @@ class SimRaw(io.RawIOBase):
 
     def truncate(self, size=None):
         size = self.pos if size is None else size
-        if not (self.dead or self.fs.dead):
+        if not (self.dead or self.fs.dead) and self.path in self.fs.files:
             del self.fs.files[self.path][size:]
             self.fs.touched.add(self.path)
         return size
@@ -216,6 +325,8 @@ class SimRaw(io.RawIOBase):
             return
         super().close()
         fs = self.fs
+        if self.fd is not None:
+            fs.fds.pop(self.fd, None)
         if self.dead or fs.dead:
             return
         f = fs._fault("close", ("close_eio",))
@@ -255,6 +366,128 @@ def _sim_open(*args, **kwargs):
 
 
 _installed = False
+_REAL = {}
+
+
+def _is_sim(path):
+    try:
+        p = os.fspath(path)
+    except TypeError:
+        return False
+    if isinstance(p, bytes):
+        p = p.decode("utf-8", "replace")
+    return p.startswith(SIM_PREFIX) or p + "/" == SIM_PREFIX
+
+
+def _aware_open(file, *args, **kwargs):
+    fs = _CURRENT["fs"]
+    if fs is not None and ((isinstance(file, int) and file in fs.fds) or (not isinstance(file, int) and _is_sim(file))):
+        return fs.open(file, *args, **kwargs)
+    return _REAL["open"](file, *args, **kwargs)
+
+
+def _install_os_seam():
+    """
+    Process-wide seam for everything addressed under /sim/: builtins.open, io.open, os.open/close/replace/rename/
+    remove/unlink/stat/fsync, os.path.exists/isfile/getsize and numpy's data-source opener.  Any other path goes to
+    the real functions, so the harness itself is unaffected.  Needed because code under test may reach the disk by
+    another route than a bare open() (an opener= callback, a temporary file moved into place with os.replace).
+    """
+    _REAL.update({
+        "open": builtins.open, "io_open": io.open, "os_open": os.open, "os_close": os.close, "os_replace": os.replace,
+        "os_rename": os.rename, "os_remove": os.remove, "os_unlink": os.unlink, "os_stat": os.stat, "os_fsync": os.fsync,
+        "exists": os.path.exists, "isfile": os.path.isfile, "getsize": os.path.getsize, "os_makedirs": os.makedirs,
+    })
+
+    def fs_or_none():
+        return _CURRENT["fs"]
+
+    def os_open(path, flags, mode=0o777, *, dir_fd=None):
+        fs = fs_or_none()
+        if fs is not None and _is_sim(path):
+            return fs.os_open(path, flags, mode)
+        return _REAL["os_open"](path, flags, mode, dir_fd=dir_fd) if dir_fd is not None else _REAL["os_open"](path, flags, mode)
+
+    def os_close(fd):
+        fs = fs_or_none()
+        if fs is not None and fd in fs.fds:
+            return fs.os_close(fd)
+        return _REAL["os_close"](fd)
+
+    def two(name, method):
+        def f(src, dst, **kw):
+            fs = fs_or_none()
+            if fs is not None and _is_sim(src) and _is_sim(dst):
+                return getattr(fs, method)(src, dst)
+            return _REAL[name](src, dst, **kw)
+        return f
+
+    def one(name, method):
+        def f(path, **kw):
+            fs = fs_or_none()
+            if fs is not None and _is_sim(path):
+                return getattr(fs, method)(path)
+            return _REAL[name](path, **kw)
+        return f
+
+    def os_stat(path, **kw):
+        fs = fs_or_none()
+        if fs is not None and not isinstance(path, int) and _is_sim(path):
+            return fs.stat(path)
+        return _REAL["os_stat"](path, **kw)
+
+    def os_fsync(fd):
+        fs = fs_or_none()
+        if fs is not None and fd in fs.fds:
+            fs._count("os.fsync")
+            return None
+        return _REAL["os_fsync"](fd)
+
+    def exists(path):
+        fs = fs_or_none()
+        if fs is not None and not isinstance(path, int) and _is_sim(path):
+            p = os.fspath(path)
+            return p in fs.files or p.rstrip("/") + "/" == SIM_PREFIX
+        return _REAL["exists"](path)
+
+    def isfile(path):
+        fs = fs_or_none()
+        if fs is not None and _is_sim(path):
+            return os.fspath(path) in fs.files
+        return _REAL["isfile"](path)
+
+    def getsize(path):
+        fs = fs_or_none()
+        if fs is not None and _is_sim(path):
+            return fs.stat(path).st_size
+        return _REAL["getsize"](path)
+
+    def makedirs(path, *a, **kw):
+        fs = fs_or_none()
+        if fs is not None and _is_sim(path):
+            return None
+        return _REAL["os_makedirs"](path, *a, **kw)
+
+    builtins.open = _aware_open
+    io.open = _aware_open
+    os.open = os_open
+    os.close = os_close
+    os.replace = two("os_replace", "rename")
+    os.rename = two("os_rename", "rename")
+    os.remove = one("os_remove", "remove")
+    os.unlink = one("os_unlink", "remove")
+    os.stat = os_stat
+    os.fsync = os_fsync
+    os.makedirs = makedirs
+    os.path.exists = exists
+    os.path.isfile = isfile
+    os.path.getsize = getsize
+    try:
+        import numpy.lib._datasource as ds
+        ds._file_openers._load()
+        ds._file_openers._file_openers[None] = _aware_open
+    except Exception:
+        pass
 
 
 def install(fs: SimFS):
@@ -269,6 +502,7 @@ def install(fs: SimFS):
     import irispie.databoxes.main as dm
     import irispie.file_io as fio
     import irispie.simultaneous._io as sio
+    _install_os_seam()
     for mod in (ex, im, dm, fio, sio):
         mod.open = _sim_open
     im._np = NumpyProxy(np, current)
